@@ -73,3 +73,37 @@ func TestC08_HostParamSlotUpperHalf(t *testing.T) {
 		})
 	}
 }
+
+// Same defect in the other direction (entry preamble, goEntryPreamblePassResult): when an exported function
+// is called through CallWithStack, an i32 result is written into its uint64 slot with a 4-byte store, so the
+// slot keeps the upper half of the parameter that occupied it: 0xdeadbeef00000005 on the compiler, 5 on the
+// interpreter.
+func TestC08_ResultSlotUpperHalf(t *testing.T) {
+	for _, tc := range []struct {
+		name string
+		cfg  wazero.RuntimeConfig
+	}{{"compiler", wazero.NewRuntimeConfigCompiler()}, {"interpreter", wazero.NewRuntimeConfigInterpreter()}} {
+		t.Run(tc.name, func(t *testing.T) {
+			ctx := context.Background()
+			r := wazero.NewRuntimeWithConfig(ctx, tc.cfg)
+			defer r.Close(ctx)
+			// (func (export "f") (param i64) (result i32) i32.const 5)
+			bin := []byte{0, 'a', 's', 'm', 1, 0, 0, 0,
+				1, 6, 1, 0x60, 1, 0x7e, 1, 0x7f,
+				3, 2, 1, 0,
+				7, 5, 1, 1, 'f', 0, 0,
+				10, 6, 1, 4, 0, 0x41, 5, 0x0b}
+			m, err := r.Instantiate(ctx, bin)
+			if err != nil {
+				t.Fatal(err)
+			}
+			stack := []uint64{0xdeadbeef_00000001}
+			if err := m.ExportedFunction("f").CallWithStack(ctx, stack); err != nil {
+				t.Fatal(err)
+			}
+			if stack[0] != 5 {
+				t.Errorf("result slot: want 5 (zero-extended i32), got %#x", stack[0])
+			}
+		})
+	}
+}
